@@ -400,6 +400,14 @@ def jail (s : St) (a : Addr) : St :=
       let app1 := { app with jailed := true }
       delStaked (setApplication s a app1) a app1
 
+/-- `Keeper.UnjailApplication` (keeper level: the `MsgUnjail` handler passes a nil address). On an
+unstaking record `SetApplication` appends the address to its queue slot once more. -/
+def unjail (s : St) (a : Addr) : St :=
+  match get s.apps a with
+  | none => s
+  | some app =>
+    if app.jailed then setApplication s a { app with jailed := false } else s
+
 /-! ## Operations of a history -/
 
 /-- What other modules may change between application operations (sends, fees, rewards,
@@ -420,6 +428,7 @@ inductive Op where
   | endBlock
   | force (a : Addr)
   | jail (a : Addr)
+  | unjail (a : Addr)
   | ext (e : Ext)
   /-- `MsgSend` whose recipient is the application pool's module account -/
   | donate (src : Addr) (amt : Int)
@@ -436,6 +445,7 @@ def step (s : St) : Op → St
   | .endBlock => endBlock s
   | .force a => (forceUnstake s a).2
   | .jail a => jail s a
+  | .unjail a => unjail s a
   | .ext e => { s with bals := e.bals, feeColl := e.feeColl, supply := e.supply, nodeStaked := e.nodeStaked, params := e.params }
   | .donate src amt => donate s src amt
 
